@@ -223,11 +223,16 @@ def run_verus(path, extra=(), timeout=1800, multiple_errors=8):
             continue
         if d['message'].startswith('aborting due to'):
             continue
-        sp = [s for s in d.get('spans', []) if s.get('is_primary')] or d.get('spans', [])
+        # only spans inside the generated file can be mapped to overlay items: a failing trait-level
+        # postcondition (`r == self.add_spec(rhs)` of vstd's std_specs/ops.rs) has its primary span in vstd and
+        # only the secondary span ("at the end of the function body") in our file
+        base = os.path.basename(path)
+        spans_own = [s for s in d.get('spans', []) if os.path.basename(s.get('file_name') or base) == base]
+        sp = [s for s in spans_own if s.get('is_primary')] or spans_own
         labels = [(s.get('label') or '') for s in d.get('spans', [])]
         diags.append(dict(level=d['level'], message=d['message'], line=sp[0]['line_start'] if sp else None,
                           line_end=sp[0]['line_end'] if sp else None,
-                          all_lines=[s['line_start'] for s in d.get('spans', [])],
+                          all_lines=[s['line_start'] for s in spans_own],
                           labels=labels, rendered=d.get('rendered', '')[:2000], code=(d.get('code') or {}).get('code') if d.get('code') else None))
     funcs = []
     vr = {}
